@@ -24,6 +24,7 @@ pub enum Step {
 fn steps_of(events: &[Event], framed: bool, units: &mut usize, out: &mut Vec<Step>) {
     // pending raw text per port (to find where a frame is complete)
     let mut pending: std::collections::HashMap<usize, (usize, String)> = Default::default();
+    let mut open_raw: std::collections::HashMap<usize, (usize, usize)> = Default::default();
     for ev in events {
         match ev {
             Event::Lock(m) => out.push(Step::Lock(*m)),
@@ -56,12 +57,33 @@ fn steps_of(events: &[Event], framed: bool, units: &mut usize, out: &mut Vec<Ste
                         pending.remove(port);
                     }
                 } else {
-                    let u = *units;
-                    *units += 1;
-                    out.push(Step::Write { port: *port, unit: u, last: true, direct: false });
+                    // a record written piece by piece with plain `display` calls (payload, then the
+                    // terminator): the pieces up to a line end or NUL, or up to the end of this
+                    // invocation, are one record
+                    let u = match open_raw.get(port) {
+                        Some((u, _)) => *u,
+                        None => {
+                            let u = *units;
+                            *units += 1;
+                            u
+                        }
+                    };
+                    let closes = text.ends_with('\n') || text.ends_with('\0');
+                    out.push(Step::Write { port: *port, unit: u, last: closes, direct: false });
+                    if closes {
+                        open_raw.remove(port);
+                    } else {
+                        open_raw.insert(*port, (u, out.len() - 1));
+                    }
                 }
             }
             Event::Break(_) | Event::ClosePort(_) => {}
+        }
+    }
+    // what is still open when the policy returns is complete as far as this invocation goes
+    for (_, (_, idx)) in open_raw {
+        if let Step::Write { last, .. } = &mut out[idx] {
+            *last = true;
         }
     }
 }
@@ -308,6 +330,13 @@ pub fn run(ctx: &Ctx) -> Report {
                 .prop_map(|c| Act::Printf(vec![FEl::F(Fld::Basename), FEl::E(Esc::Ascii(c))])),
             2 => prop::sample::select(vec!["a", "b"]).prop_map(|f| Act::FPrint(f.to_string())),
             1 => prop::sample::select(vec!["a", "b"]).prop_map(|f| Act::FPrint0(f.to_string())),
+            // special files and path-like tokens of the sources under test as destinations (a name that
+            // is special to the code must still be written under the lock like any other)
+            1 => (prop::sample::select(crate::dict::paths()), 0u8..3).prop_map(|(f, k)| match k {
+                0 => Act::FPrint(f),
+                1 => Act::FPrint0(f),
+                _ => Act::FPrintf(f, vec![FEl::F(Fld::Basename), FEl::E(Esc::Newline)]),
+            }),
             1 => Just(Act::PrintFid),
         ];
         let leaf = prop_oneof![5 => action.prop_map(E::A), 1 => Just(E::T(Tst::True)), 1 => Just(E::T(Tst::Name("a".into()))), 1 => Just(E::T(Tst::IName("A".into())))];
